@@ -24,6 +24,7 @@ type backupClient struct {
 	// table extraction (Scan only)
 	tokenT   *types.Named
 	literals []tokenSite
+	classes  map[string][]bool // sub-scanner -> first characters (below U+0250) for which Scan calls it
 }
 
 type tokenSite struct {
@@ -46,6 +47,9 @@ type secondInfo struct {
 // Inline (table extraction for Scan only): loop-free helpers that build a token are interpreted in place, so a
 // token literal shared by several dispatch clauses is seen once per clause with its parameters bound.
 func (c *backupClient) Inline(e *Engine, call *ast.CallExpr, callee *types.Func, decl *ast.FuncDecl) bool {
+	if (InlinePredicates{}).Inline(e, call, callee, decl) {
+		return true // isIdentStart(c), isQuote(c): the facts they stand for
+	}
 	if c.tokenT == nil || callee == c.next || callee == c.prev || !smallBody(decl) {
 		return false
 	}
@@ -62,6 +66,102 @@ func (c *backupClient) Inline(e *Engine, call *ast.CallExpr, callee *types.Func,
 		return true
 	})
 	return !loops
+}
+
+// noteClass: the first characters consistent with what this path knows about the character the iteration
+// dispatched on (constants it equals or differs from, predicates known to hold or not to hold for it).
+func (c *backupClient) noteClass(e *Engine, st *State, name string) {
+	k := st.Ext("iterfirst")
+	if k == "" {
+		return
+	}
+	if a := st.Get("val:" + k); a != nil && a.Alias != nil && !hasStr(a.Tags, "soft") {
+		k = a.Alias.Key
+	}
+	if c.classes == nil {
+		c.classes = map[string][]bool{}
+	}
+	if c.classes[name] == nil {
+		c.classes[name] = make([]bool, 0x250)
+	}
+	f := st.Get(k)
+	type atom struct {
+		fn   string
+		arg0 string // constant first argument (strings.ContainsRune("...", c)), if any
+		want bool
+	}
+	var atoms []atom
+	for _, key := range st.Keys() {
+		if !strings.HasPrefix(key, "call:") || !strings.HasSuffix(key, k+")") {
+			continue
+		}
+		g := st.Get(key)
+		if g == nil || !g.HasEq {
+			continue
+		}
+		body := strings.TrimPrefix(key, "call:")
+		open := strings.Index(body, "(")
+		if open < 0 {
+			continue
+		}
+		args := strings.TrimSuffix(body[open+1:], ")")
+		a := atom{fn: body[:open], want: g.Eq == "true"}
+		if args != k {
+			if !strings.HasSuffix(args, ","+k) {
+				continue
+			}
+			a.arg0 = strings.TrimSuffix(args, ","+k)
+		}
+		atoms = append(atoms, a)
+	}
+	for r := rune(0); r < 0x250; r++ {
+		ok := true
+		if f != nil {
+			if f.HasEq {
+				if n, isInt := parseInt(f.Eq); isInt && rune(n) != r {
+					ok = false
+				}
+			}
+			for _, ne := range f.Ne {
+				if n, isInt := parseInt(ne); isInt && rune(n) == r {
+					ok = false
+				}
+			}
+			if f.Lo != nil && int64(r) < *f.Lo || f.Hi != nil && int64(r) > *f.Hi {
+				ok = false
+			}
+		}
+		for _, a := range atoms {
+			if !ok {
+				break
+			}
+			var got, known bool
+			switch {
+			case a.fn == "unicode.IsSpace":
+				got, known = unicode.IsSpace(r), true
+			case a.fn == "unicode.IsLetter":
+				got, known = unicode.IsLetter(r), true
+			case a.fn == "unicode.IsDigit":
+				got, known = unicode.IsDigit(r), true
+			case a.fn == "strings.ContainsRune" && a.arg0 != "":
+				if s, err := strconv.Unquote(a.arg0); err == nil {
+					got, known = strings.ContainsRune(s, r), true
+				}
+			default:
+				if i := strings.LastIndex(a.fn, "."); i >= 0 {
+					if fd := c.p.FuncDecl(c.p.Parser, a.fn[i+1:]); fd != nil {
+						got, known = evalRunePred(c.p, fd, r, 0)
+					}
+				}
+			}
+			if known && got != a.want {
+				ok = false
+			}
+		}
+		if ok {
+			c.classes[name][r] = true
+		}
+	}
 }
 
 // where: the function (and in-place call context) a call sits in, with its ordinal among the prev() calls there.
@@ -100,6 +200,12 @@ func (c *backupClient) isScannerMethod(fn *types.Func) bool {
 }
 
 func (c *backupClient) PreCall(e *Engine, st *State, call *ast.CallExpr, callee *types.Func) *State {
+	if c.tokenT != nil && len(e.Frames()) == 0 && e.Reporting() && c.isScannerMethod(callee) {
+		switch name := fnName(callee); name {
+		case "ident", "numberOrDot", "string", "quotedIdent":
+			c.noteClass(e, st, name)
+		}
+	}
 	if callee != c.prev {
 		return nil
 	}
@@ -494,6 +600,7 @@ func ruleC09Backup(p *Program, r *Run) {
 	next := FuncObj(pkg, p.MustFunc(pkg, "scanner.next"))
 	prev := FuncObj(pkg, p.MustFunc(pkg, "scanner.prev"))
 	var scanSites []tokenSite
+	var scanClasses map[string][]bool
 	for _, fd := range AllFuncs(pkg) {
 		uses := false
 		ast.Inspect(fd.Body, func(n ast.Node) bool {
@@ -521,10 +628,11 @@ func ruleC09Backup(p *Program, r *Run) {
 		e.FlushSites(r)
 		if c.tokenT != nil {
 			scanSites = c.literals
+			scanClasses = c.classes
 		}
 	}
 	r.Floor("C09/backup", 20)
-	ruleC09Dispatch(p, r, scanSites)
+	ruleC09Dispatch(p, r, scanSites, scanClasses)
 }
 
 // ---- C09/tables: the dispatch of Scan against the documented token table.
@@ -563,7 +671,7 @@ func docPunctKind(kind string) bool {
 
 func runeKey(s string) string { return strconv.Itoa(int([]rune(s)[0])) }
 
-func ruleC09Dispatch(p *Program, r *Run, sites []tokenSite) {
+func ruleC09Dispatch(p *Program, r *Run, sites []tokenSite, classes map[string][]bool) {
 	pkg := p.Parser
 	info := pkg.TypesInfo
 	fn := "parser.Scan"
@@ -690,59 +798,28 @@ func ruleC09Dispatch(p *Program, r *Run, sites []tokenSite) {
 
 	// sub-scanner dispatch classes
 	scan := p.MustFunc(pkg, "Scan")
-	wantClass := map[string]string{
-		"ident":       "isAlpha(c)|c==$|c==_",
-		"numberOrDot": "c==.|isDigit(c)",
-		"string":      "c==\"|c=='",
-		"quotedIdent": "c==`",
+	// decided on path facts: the set of first characters (below U+0250) consistent with what is known where Scan
+	// calls each sub-scanner, against the documented class
+	isAl := func(c rune) bool { return 'a' <= c && c <= 'z' || 'A' <= c && c <= 'Z' }
+	docClass := map[string]func(c rune) bool{
+		"ident":       func(c rune) bool { return isAl(c) || c == '_' || c == '$' },
+		"numberOrDot": func(c rune) bool { return c == '.' || '0' <= c && c <= '9' },
+		"string":      func(c rune) bool { return c == '"' || c == '\'' },
+		"quotedIdent": func(c rune) bool { return c == '`' },
 	}
-	gotClass := map[string]string{}
-	ast.Inspect(scan.Body, func(n ast.Node) bool {
-		cc, ok := n.(*ast.CaseClause)
-		if !ok || len(cc.List) != 1 {
-			return true
+	docText := map[string]string{"ident": "[A-Za-z_$]", "numberOrDot": "[0-9.]", "string": "[\"']", "quotedIdent": "[`]"}
+	for _, name := range []string{"ident", "numberOrDot", "quotedIdent", "string"} {
+		bad := ""
+		set := classes[name]
+		if set == nil {
+			bad = "Scan never calls it"
 		}
-		var callee string
-		for _, s := range cc.Body {
-			ast.Inspect(s, func(m ast.Node) bool {
-				if call, ok := m.(*ast.CallExpr); ok {
-					if fnc := Callee(info, call); fnc != nil && fnc.Type().(*types.Signature).Recv() != nil && fnName(fnc) != "prev" && fnName(fnc) != "next" {
-						if _, want := wantClass[fnName(fnc)]; want {
-							callee = fnName(fnc)
-						}
-					}
-				}
-				return true
-			})
-		}
-		if callee == "" {
-			return true
-		}
-		var atoms []string
-		for _, d := range disjuncts(cc.List[0]) {
-			switch x := d.(type) {
-			case *ast.CallExpr:
-				if f := Callee(info, x); f != nil {
-					atoms = append(atoms, fnName(f)+"(c)")
-				}
-			case *ast.BinaryExpr:
-				if v := constOf(info, x.Y); v != nil && x.Op == token.EQL {
-					n, _ := constant.Int64Val(v)
-					atoms = append(atoms, "c=="+string(rune(n)))
-				}
-			default:
-				atoms = append(atoms, "?"+exprStr(d))
+		for c := rune(0); c < 0x250 && bad == ""; c++ {
+			if set[c] != docClass[name](c) {
+				bad = fmt.Sprintf("%q: entered=%v, documented=%v", c, set[c], docClass[name](c))
 			}
 		}
-		sort.Strings(atoms)
-		gotClass[callee] = strings.Join(atoms, "|")
-		return true
-	})
-	for _, name := range []string{"ident", "numberOrDot", "quotedIdent", "string"} {
-		ws := strings.Split(wantClass[name], "|")
-		sort.Strings(ws)
-		wantClass[name] = strings.Join(ws, "|")
-		r.Check(gotClass[name] == wantClass[name], "C09/classes", fmt.Sprintf("%s first-character class of %s", fn, name), p.Pos(scan.Pos()), "dispatch class "+wantClass[name], fmt.Sprintf("sub-scanner %s is entered for first characters {%s}, documented {%s}", name, gotClass[name], wantClass[name]))
+		r.Check(bad == "", "C09/classes", fmt.Sprintf("%s first-character class of %s", fn, name), p.Pos(scan.Pos()), "entered exactly for first characters "+docText[name]+" (path facts at the call, U+0000..U+024F)", fmt.Sprintf("sub-scanner %s is not entered for exactly the documented first characters %s: %s", name, docText[name], bad))
 	}
 	// character predicates evaluated over the first 0x250 code points
 	preds := map[string]func(c rune) bool{
@@ -801,25 +878,15 @@ func evalRunePred(p *Program, fd *ast.FuncDecl, c rune, depth int) (bool, bool) 
 // evalPredicate evaluates a side-effect-free boolean function over integer (rune/byte) arguments: straight-line
 // definitions, if/else, switch and return; comparisons, arithmetic and calls of other such predicates
 // (and of the unicode class predicates). ok is false if the body uses anything else.
-func evalPredicate(p *Program, fd *ast.FuncDecl, args []int64, depth int) (result bool, ok bool) {
-	if depth > 6 || fd == nil || fd.Body == nil {
-		return false, false
-	}
+// predEval evaluates side-effect-free boolean/integer code over known integer (rune/byte) variables.
+type predEval struct {
+	evalB func(e ast.Expr) (bool, bool)
+	evalI func(e ast.Expr) (int64, bool)
+	exec  func(list []ast.Stmt) (bool, bool, bool)
+}
+
+func newPredEval(p *Program, env map[types.Object]int64, benv map[types.Object]bool, depth int) *predEval {
 	info := p.Info
-	env := map[types.Object]int64{}
-	benv := map[types.Object]bool{}
-	i := 0
-	for _, f := range fd.Type.Params.List {
-		for _, n := range f.Names {
-			if i < len(args) {
-				env[info.Defs[n]] = args[i]
-			}
-			i++
-		}
-	}
-	if i != len(args) {
-		return false, false
-	}
 	var evalB func(e ast.Expr) (bool, bool)
 	var evalI func(e ast.Expr) (int64, bool)
 	evalI = func(e ast.Expr) (int64, bool) {
@@ -971,6 +1038,17 @@ func evalPredicate(p *Program, fd *ast.FuncDecl, args []int64, depth int) (resul
 			if f == nil {
 				return false, false
 			}
+			if f.Pkg() != nil && f.Pkg().Path() == "strings" && len(x.Args) == 2 {
+				if str, isStr := constString(info, x.Args[0]); isStr {
+					if v, ok := evalI(x.Args[1]); ok {
+						switch f.Name() {
+						case "ContainsRune":
+							return strings.ContainsRune(str, rune(v)), true
+						}
+					}
+				}
+				return false, false
+			}
 			var vals []int64
 			for _, a := range x.Args {
 				v, ok := evalI(a)
@@ -1115,7 +1193,35 @@ func evalPredicate(p *Program, fd *ast.FuncDecl, args []int64, depth int) (resul
 		}
 		return false, false, true
 	}
-	v, ret, ok := exec(fd.Body.List)
+	return &predEval{evalB: evalB, evalI: evalI, exec: exec}
+}
+
+// evalBoolExpr evaluates a boolean expression in which the variables of env have the given values.
+func evalBoolExpr(p *Program, x ast.Expr, env map[types.Object]int64) (bool, bool) {
+	return newPredEval(p, env, map[types.Object]bool{}, 0).evalB(x)
+}
+
+func evalPredicate(p *Program, fd *ast.FuncDecl, args []int64, depth int) (result bool, ok bool) {
+	if depth > 6 || fd == nil || fd.Body == nil {
+		return false, false
+	}
+	info := p.Info
+	env := map[types.Object]int64{}
+	benv := map[types.Object]bool{}
+	i := 0
+	for _, f := range fd.Type.Params.List {
+		for _, n := range f.Names {
+			if i < len(args) {
+				env[info.Defs[n]] = args[i]
+			}
+			i++
+		}
+	}
+	if i != len(args) {
+		return false, false
+	}
+	pe := newPredEval(p, env, benv, depth)
+	v, ret, ok := pe.exec(fd.Body.List)
 	if !ok || !ret {
 		return false, false
 	}
@@ -1682,4 +1788,45 @@ func (c *escapeClient) Return(e *Engine, st *State, ret *ast.ReturnStmt) {
 	if ch, _, ok := c.escaped(st); ok && ch == "\n" {
 		c.nlReturn = true
 	}
+}
+
+// runeAtom evaluates a remembered call atom `call:F(args)` whose last argument is the rune variable with key rk, for
+// the rune r: module predicates are evaluated on r, the unicode classes and strings.ContainsRune(const, r) are known.
+// known is false if the atom is not about that variable or cannot be evaluated.
+func runeAtom(p *Program, key, rk string, r rune) (val, known bool) {
+	if !strings.HasPrefix(key, "call:") || !strings.HasSuffix(key, rk+")") {
+		return false, false
+	}
+	body := strings.TrimPrefix(key, "call:")
+	open := strings.Index(body, "(")
+	if open < 0 {
+		return false, false
+	}
+	fn, args := body[:open], strings.TrimSuffix(body[open+1:], ")")
+	arg0 := ""
+	if args != rk {
+		if !strings.HasSuffix(args, ","+rk) {
+			return false, false
+		}
+		arg0 = strings.TrimSuffix(args, ","+rk)
+	}
+	switch {
+	case fn == "unicode.IsSpace" && arg0 == "":
+		return unicode.IsSpace(r), true
+	case fn == "unicode.IsLetter" && arg0 == "":
+		return unicode.IsLetter(r), true
+	case fn == "unicode.IsDigit" && arg0 == "":
+		return unicode.IsDigit(r), true
+	case fn == "strings.ContainsRune" && arg0 != "":
+		if s, err := strconv.Unquote(arg0); err == nil {
+			return strings.ContainsRune(s, r), true
+		}
+	case arg0 == "":
+		if i := strings.LastIndex(fn, "."); i >= 0 && strings.HasPrefix(fn, PathParser) {
+			if fd := p.FuncDecl(p.Parser, fn[i+1:]); fd != nil {
+				return evalRunePred(p, fd, r, 0)
+			}
+		}
+	}
+	return false, false
 }
